@@ -76,7 +76,9 @@ constructor takes the features, has its own), `__deepcopy__` re-creates as well 
 theorem criteria_pickle_to_empty_state_and_are_recreated :
     "__getstate__" ∈ criterionSpecial ∧ "__setstate__" ∈ criterionSpecial ∧ "__deepcopy__" ∈ criterionSpecial ∧
     criterionState = "{}" ∧ "__reduce__" ∈ criterionSpecial ∧ "__reduce__" ∈ criterionLinearSpecial ∧
-    "__deepcopy__" ∈ criterionLinearSpecial := by
+    "__deepcopy__" ∈ criterionLinearSpecial ∧
+    criterionDeepcopy = "inst = self.__class__(self.n_outputs, self.n_samples);return inst" ∧
+    criterionLinearDeepcopy = "inst = self.__class__(self.n_outputs, self.sample_X);return inst" := by
   decide
 
 /-! ### generic consequences of being row-wise -/
